@@ -892,8 +892,27 @@ def r07_4(rep: Report, idx: Index) -> None:
     # create_period appends each set to the adaptation sets of that type
     cp = idx.functions.get(
         'dashlive.server.requesthandler.manifest_context.ManifestContext.create_period')
-    calls = [norm(c) for c in ast.walk(cp.node) if isinstance(c, ast.Call)
-             and isinstance(c.func, ast.Attribute) and c.func.attr == 'append_cgi_params']
+    call_nodes = [c for c in ast.walk(cp.node) if isinstance(c, ast.Call)
+                  and isinstance(c.func, ast.Attribute) and c.func.attr == 'append_cgi_params']
+
+    def kind_of(recv: ast.AST) -> str | None:
+        """media type of the receiver, by what it is called or what it is taken from (a loop over the audio list)"""
+        txt = norm(recv).lower()
+        hits = [k for k in ('video', 'audio', 'text') if k in txt]
+        if len(hits) == 1:
+            return hits[0]
+        if isinstance(recv, ast.Name):
+            for lp in ast.walk(cp.node):
+                if isinstance(lp, ast.For) and any(isinstance(x, ast.Name) and x.id == recv.id for x in ast.walk(lp.target)):
+                    hits = [k for k in ('video', 'audio', 'text') if k in norm(lp.iter).lower()]
+                    if len(hits) == 1:
+                        return hits[0]
+        return None
+    calls = []
+    for c in call_nodes:
+        k_ = kind_of(c.func.value)
+        # the call as the rule states it: <kind of the receiver>.append_cgi_params(<argument>)
+        calls.append(f'{k_ or norm(c.func.value)}.append_cgi_params({", ".join(norm(a) for a in c.args)})')
     for recv, kind in (('video', 'video'), ('audio', 'audio'), ('text', 'text')):
         want_call = f'{recv}.append_cgi_params(self.cgi_params.{kind})'
         if want_call in calls:
